@@ -984,6 +984,7 @@ static WBXMLError parse_element(WBXMLParser *parser)
     WBXMLTag        *element        = NULL;
     WBXMLAttribute  *attr           = NULL;
     WBXMLAttribute **attrs          = NULL;
+    WBXMLAttribute **new_attrs      = NULL;
     WBXMLBuffer     *content        = NULL;
   
     WB_ULONG         attrs_nb       = 0;
@@ -1027,16 +1028,17 @@ static WBXMLError parse_element(WBXMLParser *parser)
             /* Append this attribute in WBXMLAttribute **attrs table */
             attrs_nb++;
     
-            if ((attrs = wbxml_realloc(attrs,
-                                        (attrs_nb + 1) * sizeof(*attrs))) == NULL)
+            if ((new_attrs = wbxml_realloc(attrs,
+                                            (attrs_nb + 1) * sizeof(*attrs))) == NULL)
             {
-                /* Clean-up */
+                /* Clean-up ('attrs' still is the table of the previous attributes) */
                 wbxml_tag_destroy(element);
                 wbxml_attribute_destroy(attr);
                 free_attrs_table(attrs);
                 return WBXML_ERROR_NOT_ENOUGH_MEMORY;
             }
     
+            attrs = new_attrs;
             attrs[(attrs_nb - 1)] = attr;
             attrs[attrs_nb] = NULL;
         } while ( !is_token(parser, WBXML_END) );
